@@ -881,7 +881,7 @@ pub const CB_WEIGHTER: u8 = 2;
 pub const CB_FILTER: u8 = 4;
 pub const CB_DROP: u8 = 8;
 
-fn c16<E, const ALG: u8>(cfg: E::Config, cbs: u8, op: u8, action: Option<u8>, lit_w: usize)
+fn c16<E, const ALG: u8>(cfg: E::Config, cbs: u8, op: u8, action: Option<u8>, lit_w: usize, ins_key: usize)
 where
     E: Eviction<Key = u64, Value = DropVal<ALG>, Properties = HProps>,
 {
@@ -931,7 +931,7 @@ where
     // insert / disk-only insert: symbolic key; remove / get return optional handles: concrete resident key 16
     // keys are concrete (see `Sc::key`): inserts add the absent key 32 (evicting at capacity), remove / get use resident 16;
     // the inserted value (weight 0..3, filter bit) is symbolic
-    let k = if op == OP_INSERT || op == OP_INSERT_DISK { KEYS[2] } else { KEYS[0] };
+    let k = if op == OP_INSERT || op == OP_INSERT_DISK { KEYS[ins_key] } else { KEYS[0] };
     match op {
         OP_INSERT => {
             // literal weight 1 (one eviction at capacity) or 2 (two), symbolic payload
@@ -963,8 +963,11 @@ where
 
 macro_rules! c16h {
     ($name:ident, $e:ty, $alg:expr, $cfg:expr, $cbs:expr, $op:expr, $action:expr) => {
+        c16h!($name, $e, $alg, $cfg, $cbs, $op, $action, 2);
+    };
+    ($name:ident, $e:ty, $alg:expr, $cfg:expr, $cbs:expr, $op:expr, $action:expr, $key:expr) => {
         verif_harness! { #[kani::stub(crate::inflight::InflightManager::take, crate::inflight::InflightManager::verif_take_none)] $name, 5, {
-            c16::<$e, $alg>($cfg, $cbs, $op, $action, 1);
+            c16::<$e, $alg>($cfg, $cbs, $op, $action, 1, $key);
         } }
     };
 }
@@ -981,6 +984,11 @@ c16h!(c16_fifo_drop_insert, FifoD, 0, FifoConfig::default(), CB_DROP, OP_INSERT,
 c16h!(c16_fifo_drop_remove, FifoD, 0, FifoConfig::default(), CB_DROP, OP_REMOVE, Some(0));
 c16h!(c16_fifo_drop_clear, FifoD, 0, FifoConfig::default(), CB_DROP, OP_CLEAR, Some(0));
 c16h!(c16_fifo_drop_evictall, FifoD, 0, FifoConfig::default(), CB_DROP, OP_EVICT_ALL, Some(0));
+// insert / disk-only insert OVER A RESIDENT key: the replaced record's destructor and notification must run outside the lock
+c16h!(c16_fifo_drop_replace, FifoD, 0, FifoConfig::default(), CB_DROP, OP_INSERT, Some(0), 0);
+c16h!(c16_fifo_drop_insdisk_resident, FifoD, 0, FifoConfig::default(), CB_DROP, OP_INSERT_DISK, Some(0), 0);
+c16h!(c16_fifo_listener_insdisk_resident, FifoD, 0, FifoConfig::default(), CB_LISTENER, OP_INSERT_DISK, Some(0), 1);
+c16h!(c16_lru_drop_insdisk_resident, LruD, 1, LRU_CFG, CB_DROP, OP_INSERT_DISK, Some(0), 0);
 // symbolic nested action (fresh insert / replacing insert / disk-only insert)
 c16h!(c16_fifo_listener_insert_anyaction, FifoD, 0, FifoConfig::default(), CB_LISTENER, OP_INSERT, None);
 // LRU: lookups and handle drops take the write lock
@@ -990,6 +998,61 @@ c16h!(c16_lru_drop_get, LruD, 1, LRU_CFG, CB_DROP | CB_LISTENER, OP_GET, Some(1)
 c16h!(c16_lru_listener_clear, LruD, 1, LRU_CFG, CB_LISTENER, OP_CLEAR, Some(0));
 c16h!(c16_sieve_listener_insert, SieveD, 2, SieveConfig {}, CB_LISTENER, OP_INSERT, Some(0));
 c16h!(c16_sieve_drop_insert, SieveD, 2, SieveConfig {}, CB_DROP, OP_INSERT, Some(0));
+
+// =====================================================================================================================
+// C11-X2 (fetch task side): a `RawFetch` that is parked in its disk-lookup (FetchOptional) or origin (FetchRequired) phase
+// while `insert(k, v_new)` completes.  The insert takes the in-flight entry over and sets the close flag (X1 decides that
+// the leader holds THAT flag); here the fetch task is built directly in the parked state with a symbolic flag and then
+// polled with the late answer.  Oracle: flag set => the late result is dropped and `get(k)` still returns v_new; flag clear
+// => the fetched value is inserted (the task is not simply dead).  The in-flight table is empty here (`take` stubbed None).
+// =====================================================================================================================
+fn x2(required_phase: bool, closed: bool) {
+    let force = Arc::new(Force::new());
+    force.set(Some(1), Some(false));
+    let cache: Cache<FifoT> = mk_cache(2, FifoConfig::default(), None, None, force.clone());
+    let k = KEYS[0];
+    let v_new: u64 = kani::any();
+    let v_old: u64 = kani::any();
+    kani::assume(v_new != v_old);
+    drop(cache.insert(k, v_new));
+    // the flag is literal per harness (a symbolic flag makes the insert conditional: merged heap shapes)
+    let target = FetchTarget::Entry { value: v_old, properties: HProps::default() };
+    let state: RawFetchState<FifoT, IdHasher, VecIndexer<FifoT>, ()> = if required_phase {
+        RawFetchState::FetchRequired { required_fetch: Box::pin(std::future::ready(Ok(target))) }
+    } else {
+        RawFetchState::FetchOptional { optional_fetch: Box::pin(std::future::ready(Ok(Some(target)))), required_fetch_builder: None }
+    };
+    let inflights = cache.inner.shards[0].read().inflights.clone();
+    let fetch = RawFetch { state, id: 0, hash: k >> 4, key: Some(k), ctx: (), cache: cache.clone(), inflights, close: Arc::new(AtomicBool::new(closed)) };
+    let mut fetch = Box::pin(fetch);
+    let waker = noop_waker();
+    let mut cx = std::task::Context::from_waker(&waker);
+    let r = fetch.as_mut().poll(&mut cx);
+    assert!(r.is_ready(), "C06/C11: fetch task did not finish although its fetch had resolved");
+    let got = cache.get(&k).expect("C11: key missing after insert");
+    if closed {
+        assert!(*got.value() == v_new, "C11: a late fetch result replaced the explicitly inserted value");
+    } else {
+        assert!(*got.value() == v_old, "fetch result was not inserted although nothing took the fetch over");
+    }
+    kani::cover!(true, "end reached");
+    std::mem::forget(got);
+    std::mem::forget(fetch);
+    std::mem::forget(cache);
+}
+fn noop_waker() -> std::task::Waker {
+    use std::task::{RawWaker, RawWakerVTable, Waker};
+    fn clone(_: *const ()) -> RawWaker {
+        RawWaker::new(std::ptr::null(), &VTABLE)
+    }
+    fn noop(_: *const ()) {}
+    static VTABLE: RawWakerVTable = RawWakerVTable::new(clone, noop, noop, noop);
+    unsafe { Waker::from_raw(RawWaker::new(std::ptr::null(), &VTABLE)) }
+}
+verif_harness! { #[kani::stub(crate::inflight::InflightManager::take, crate::inflight::InflightManager::verif_take_none)] c11_x2_late_disk_hit, 5, { x2(false, true); } }
+verif_harness! { #[kani::stub(crate::inflight::InflightManager::take, crate::inflight::InflightManager::verif_take_none)] c11_x2_late_origin_result, 5, { x2(true, true); } }
+verif_harness! { #[kani::stub(crate::inflight::InflightManager::take, crate::inflight::InflightManager::verif_take_none)] c11_x2_disk_hit_not_closed, 5, { x2(false, false); } }
+verif_harness! { #[kani::stub(crate::inflight::InflightManager::take, crate::inflight::InflightManager::verif_take_none)] c11_x2_origin_result_not_closed, 5, { x2(true, false); } }
 
 // =====================================================================================================================
 // C17: the real HashTableIndexer (hashbrown, portable groups via --cfg miri) with keys that collide on all 64 hash bits
